@@ -13,6 +13,7 @@ import RosedVerif.Model.BridgeOps
 import RosedVerif.Model.BridgeEditorOps
 import RosedVerif.Model.BridgeEditorParas
 import RosedVerif.Model.NoLossModel
+import RosedVerif.Model.NoLossOps
 namespace RosedVerif.Props
 open RosedVerif RosedVerif.Spec
 variable {α : Type} (tk : Toks α)
@@ -121,5 +122,264 @@ theorem C07_wrap_dehyphen {α : Type} (tk : Spec.Toks α) [DecidableEq α]
     (h : HyOK tk w l) :
     dehyphen tk w (Spec.wrapLines tk w l) = words tk l :=
   C07_wrap_dehyphen_m tk hw hsp hhy l h
+
+section C07_public
+open RosedVerif.NoLossOps RosedVerif.ParaStructure
+
+/-- **AlignOpts on code points, whole text**: the sequence of non-whitespace grapheme clusters of the
+result equals that of the input (non-paragraph mode, any editor, any good separator whose clusters are
+in the vocabulary) -/
+theorem C07_alignOpts_code_points_text {V : List (List Int)} (hV : VocabStable V = true)
+    (hsp : [0x20] ∈ V)
+    (ed : Editor (List Int)) (ht : ∀ t ∈ ed.text, t ∈ V) (align width : Int)
+    (o : Options (List Int))
+    (hal : align = Gen.alignLeft ∨ align = Gen.alignRight ∨ align = Gen.alignCenter)
+    (hpp : o.preservePara = false) (hS : GoodSep V (o.withDefaults cxB).lineSep)
+    (hSV : ∀ t ∈ (o.withDefaults cxB).lineSep, t ∈ V) :
+    ∃ e, Editor.alignOpts cxA ed.flat align width o.flat = .ok e ∧ e.opts = ed.flat.opts ∧
+      nonws (clusters cxA e.text) = nonws (clusters cxA ed.flat.text) :=
+  alignOpts_nonws_text hV hsp ed ht align width o hal hpp hS hSV
+
+/-- **AlignOpts on code points, line by line**: result and input, split at the line separator and
+segmented, have the same non-whitespace clusters line for line, and the number of line separators
+is unchanged (unbordered separator that no aligned line contains: both needed, see `C13_line_count`) -/
+theorem C07_alignOpts_code_points {V : List (List Int)} (hV : VocabStable V = true)
+    (hsp : [0x20] ∈ V)
+    (ed : Editor (List Int)) (ht : ∀ t ∈ ed.text, t ∈ V) (align width : Int)
+    (o : Options (List Int))
+    (hal : align = Gen.alignLeft ∨ align = Gen.alignRight ∨ align = Gen.alignCenter)
+    (hpp : o.preservePara = false) (hS : GoodSep V (o.withDefaults cxB).lineSep)
+    (hSV : ∀ t ∈ (o.withDefaults cxB).lineSep, t ∈ V)
+    (hu : Unbordered (o.withDefaults cxB).lineSep)
+    (hfree : ∀ l ∈ inLines cxB ed o,
+      indexOf (o.withDefaults cxB).lineSep (specAlign align width l) = none) :
+    ∃ e, Editor.alignOpts cxA ed.flat align width o.flat = .ok e ∧ e.opts = ed.flat.opts ∧
+      (splitOn e.text (o.flat.withDefaults cxA).lineSep).map (fun l => nonws (clusters cxA l)) =
+        (splitOn ed.flat.text (o.flat.withDefaults cxA).lineSep).map
+          (fun l => nonws (clusters cxA l)) ∧
+      (splitOn e.text (o.flat.withDefaults cxA).lineSep).length =
+        (splitOn ed.flat.text (o.flat.withDefaults cxA).lineSep).length :=
+  alignOpts_nonws_lines hV hsp ed ht align width o hal hpp hS hSV hu hfree
+
+/-- … for a line separator that is one cluster other than the space (`"\n"`, CR LF): no side
+condition left -/
+theorem C07_alignOpts_code_points_tok {V : List (List Int)} (hV : VocabStable V = true)
+    (hsp : [0x20] ∈ V)
+    (ed : Editor (List Int)) (ht : ∀ t ∈ ed.text, t ∈ V) (align width : Int)
+    (o : Options (List Int))
+    (hal : align = Gen.alignLeft ∨ align = Gen.alignRight ∨ align = Gen.alignCenter)
+    (hpp : o.preservePara = false) (s : List Int) (hs : (o.withDefaults cxB).lineSep = [s])
+    (hsV : s ∈ V) (hsne : s ≠ [0x20]) (hS : GoodSep V [s]) :
+    ∃ e, Editor.alignOpts cxA ed.flat align width o.flat = .ok e ∧ e.opts = ed.flat.opts ∧
+      (splitOn e.text (o.flat.withDefaults cxA).lineSep).map (fun l => nonws (clusters cxA l)) =
+        (splitOn ed.flat.text (o.flat.withDefaults cxA).lineSep).map
+          (fun l => nonws (clusters cxA l)) ∧
+      (splitOn e.text (o.flat.withDefaults cxA).lineSep).length =
+        (splitOn ed.flat.text (o.flat.withDefaults cxA).lineSep).length :=
+  alignOpts_nonws_lines_tok hV hsp ed ht align width o hal hpp s hs hsV hsne hS
+
+/-- **JustifyOpts on code points** (JustifyLastLine on and off), whole text -/
+theorem C07_justifyOpts_code_points_text {V : List (List Int)} (hV : VocabStable V = true)
+    (hsp : [0x20] ∈ V)
+    (hspTail : ∀ t ∈ V, (0x20 : Int) ∉ t.tail) (ed : Editor (List Int))
+    (ht : ∀ t ∈ ed.text, t ∈ V) (width : Int) (o : Options (List Int))
+    (hpp : o.preservePara = false) (hS : GoodSep V (o.withDefaults cxB).lineSep)
+    (hSV : ∀ t ∈ (o.withDefaults cxB).lineSep, t ∈ V) :
+    ∃ e, Editor.justifyOpts cxA ed.flat width o.flat = .ok e ∧ e.opts = ed.flat.opts ∧
+      nonws (clusters cxA e.text) = nonws (clusters cxA ed.flat.text) :=
+  justifyOpts_nonws_text hV hsp hspTail ed ht width o hpp hS hSV
+
+/-- **JustifyOpts on code points**, line by line (`justLines`: every line justified with
+JustifyLastLine, every line but the last without) -/
+theorem C07_justifyOpts_code_points {V : List (List Int)} (hV : VocabStable V = true)
+    (hsp : [0x20] ∈ V)
+    (hspTail : ∀ t ∈ V, (0x20 : Int) ∉ t.tail) (ed : Editor (List Int))
+    (ht : ∀ t ∈ ed.text, t ∈ V) (width : Int) (o : Options (List Int))
+    (hpp : o.preservePara = false) (hS : GoodSep V (o.withDefaults cxB).lineSep)
+    (hSV : ∀ t ∈ (o.withDefaults cxB).lineSep, t ∈ V)
+    (hu : Unbordered (o.withDefaults cxB).lineSep)
+    (hfree : ∀ l ∈ justLines ed o width, indexOf (o.withDefaults cxB).lineSep l = none) :
+    ∃ e, Editor.justifyOpts cxA ed.flat width o.flat = .ok e ∧ e.opts = ed.flat.opts ∧
+      (splitOn e.text (o.flat.withDefaults cxA).lineSep).map (fun l => nonws (clusters cxA l)) =
+        (splitOn ed.flat.text (o.flat.withDefaults cxA).lineSep).map
+          (fun l => nonws (clusters cxA l)) ∧
+      (splitOn e.text (o.flat.withDefaults cxA).lineSep).length =
+        (splitOn ed.flat.text (o.flat.withDefaults cxA).lineSep).length :=
+  justifyOpts_nonws_lines hV hsp hspTail ed ht width o hpp hS hSV hu hfree
+
+theorem C07_justifyOpts_code_points_tok {V : List (List Int)} (hV : VocabStable V = true)
+    (hsp : [0x20] ∈ V)
+    (hspTail : ∀ t ∈ V, (0x20 : Int) ∉ t.tail) (ed : Editor (List Int))
+    (ht : ∀ t ∈ ed.text, t ∈ V) (width : Int) (o : Options (List Int))
+    (hpp : o.preservePara = false) (s : List Int) (hs : (o.withDefaults cxB).lineSep = [s])
+    (hsV : s ∈ V) (hsne : s ≠ [0x20]) (hS : GoodSep V [s]) :
+    ∃ e, Editor.justifyOpts cxA ed.flat width o.flat = .ok e ∧ e.opts = ed.flat.opts ∧
+      (splitOn e.text (o.flat.withDefaults cxA).lineSep).map (fun l => nonws (clusters cxA l)) =
+        (splitOn ed.flat.text (o.flat.withDefaults cxA).lineSep).map
+          (fun l => nonws (clusters cxA l)) ∧
+      (splitOn e.text (o.flat.withDefaults cxA).lineSep).length =
+        (splitOn ed.flat.text (o.flat.withDefaults cxA).lineSep).length :=
+  justifyOpts_nonws_lines_tok hV hsp hspTail ed ht width o hpp s hs hsV hsne hS
+
+/-- **WrapOpts on code points, closed form** (any good separator): the new text is the flattening of
+the wrapped cluster lines `wrapLinesB` joined by the separator (plus the trailing one); splitting
+those lines at whitespace gives the pieces of the words of the input (line separators read as
+whitespace: `wrapIn`), un-hyphenating the pieces of a word gives the word back, every non-final
+piece is a full line-width ending in the continuation hyphen; `dehyphen` recovers the words from the
+lines alone when no word can be mistaken for a continuation piece -/
+theorem C07_wrapOpts_code_points {V : List (List Int)} (hV : VocabStable V = true)
+    (hsp : [0x20] ∈ V)
+    (hspTail : ∀ t ∈ V, (0x20 : Int) ∉ t.tail)
+    (ed : Editor (List Int)) (ht : ∀ t ∈ ed.text, t ∈ V) (w : Int) (o : Options (List Int))
+    (hpp : o.preservePara = false) (hS : GoodSep V (o.withDefaults cxB).lineSep) :
+    ∃ e, Editor.wrapOpts cxA ed.flat w o.flat = .ok e ∧ e.opts = ed.flat.opts ∧
+      e.text = (wrapTextB ed w o).flatten ∧
+      clusters cxA (replaceAll' cxA ed.flat.text (o.flat.withDefaults cxA).lineSep) = wrapIn ed o ∧
+      (∃ pss : List (List (List (List Int))),
+        (wrapLinesB ed w o).flatMap (words tkB) = pss.flatten ∧
+        pss.map unhyphen = words tkB (wrapIn ed o) ∧
+        (∀ ps ∈ pss, ps ≠ [] ∧
+          ∀ p ∈ ps.dropLast, p.length = wid w ∧ p.getLast? = some tkB.hy)) ∧
+      (HyOK tkB (wid w) (wrapIn ed o) →
+        dehyphen tkB (wid w) (wrapLinesB ed w o) = words tkB (wrapIn ed o)) :=
+  wrapOpts_no_loss hV hsp hspTail ed ht w o hpp hS
+
+/-- **WrapOpts on code points, from the output alone** (separator = one cluster other than space and
+hyphen): split the result at the separator, segment, split at whitespace, undo the continuation
+hyphens — the words, hence the non-whitespace clusters, of the input with its line separators read
+as whitespace -/
+theorem C07_wrapOpts_code_points_dehyphen {V : List (List Int)} (hV : VocabStable V = true)
+    (hsp : [0x20] ∈ V) (hhy : [0x2D] ∈ V)
+    (hspTail : ∀ t ∈ V, (0x20 : Int) ∉ t.tail)
+    (ed : Editor (List Int)) (ht : ∀ t ∈ ed.text, t ∈ V) (w : Int) (o : Options (List Int))
+    (hpp : o.preservePara = false) (s : List Int) (hs : (o.withDefaults cxB).lineSep = [s])
+    (hsV : s ∈ V) (hsne : s ≠ [0x20]) (hshy : s ≠ [0x2D]) (hS : GoodSep V [s])
+    (hok : HyOK tkB (wid w) (wrapIn ed o)) :
+    ∃ e, Editor.wrapOpts cxA ed.flat w o.flat = .ok e ∧ e.opts = ed.flat.opts ∧
+      dehyphen tkB (wid w)
+          ((splitOn e.text (o.flat.withDefaults cxA).lineSep).map (clusters cxA)) =
+        words tkB (clusters cxA (replaceAll' cxA ed.flat.text (o.flat.withDefaults cxA).lineSep)) ∧
+      (dehyphen tkB (wid w)
+          ((splitOn e.text (o.flat.withDefaults cxA).lineSep).map (clusters cxA))).flatten =
+        nonws (clusters cxA (replaceAll' cxA ed.flat.text (o.flat.withDefaults cxA).lineSep)) :=
+  wrapOpts_dehyphen_tok hV hsp hhy hspTail ed ht w o hpp s hs hsV hsne hshy hS hok
+
+/-- **WrapOpts on code points, whole text** (separator = one whitespace cluster, e.g. the default
+`"\n"`): the non-whitespace clusters of the output, continuation hyphens removed, equal those of the
+input -/
+theorem C07_wrapOpts_code_points_text {V : List (List Int)} (hV : VocabStable V = true)
+    (hsp : [0x20] ∈ V) (hhy : [0x2D] ∈ V)
+    (hspTail : ∀ t ∈ V, (0x20 : Int) ∉ t.tail)
+    (ed : Editor (List Int)) (ht : ∀ t ∈ ed.text, t ∈ V) (w : Int) (o : Options (List Int))
+    (hpp : o.preservePara = false) (s : List Int) (hs : (o.withDefaults cxB).lineSep = [s])
+    (hsV : s ∈ V) (hsws : cxB.isSpace s = true) (hS : GoodSep V [s])
+    (hok : HyOK tkB (wid w) (clusters cxA ed.flat.text)) :
+    ∃ e, Editor.wrapOpts cxA ed.flat w o.flat = .ok e ∧ e.opts = ed.flat.opts ∧
+      dehyphen tkB (wid w) [clusters cxA e.text] = words tkB (clusters cxA ed.flat.text) ∧
+      (dehyphen tkB (wid w) [clusters cxA e.text]).flatten = nonws (clusters cxA ed.flat.text) :=
+  wrapOpts_dehyphen_text hV hsp hhy hspTail ed ht w o hpp s hs hsV hsws hS hok
+
+/-- **paragraph mode, Align** (affix-free paragraph separator): every paragraph separator is kept in
+place, every piece is the non-paragraph `AlignOpts` of its paragraph (so the statements above hold
+paragraph by paragraph), and the non-whitespace clusters of the whole text are unchanged -/
+theorem C07_alignOpts_para {V : List (List Int)} (hV : VocabStable V = true) (hsp : [0x20] ∈ V)
+    (ed : Editor (List Int)) (ht : ∀ t ∈ ed.text, t ∈ V) (align width : Int)
+    (o : Options (List Int))
+    (hal : align = Gen.alignLeft ∨ align = Gen.alignRight ∨ align = Gen.alignCenter)
+    (hpp : o.preservePara = true)
+    (hG : GoodPara V (o.withDefaults cxB).lineSep (o.withDefaults cxB).paraSep)
+    (haf : AffixFree (o.flat.withDefaults cxA)) :
+    ∃ (e : Editor Int) (G : List (List Int) → List (List Int)),
+      Editor.alignOpts cxA ed.flat align width o.flat = .ok e ∧ e.opts = ed.flat.opts ∧
+      ed.flat.text = joinWith (o.flat.withDefaults cxA).paraSep
+        ((paragraphsOf ed.text (o.withDefaults cxB)).map List.flatten) ∧
+      e.text = joinWith (o.flat.withDefaults cxA).paraSep
+        ((paragraphsOf ed.text (o.withDefaults cxB)).map (fun p => (G p).flatten)) ∧
+      (∀ p ∈ paragraphsOf ed.text (o.withDefaults cxB),
+        (∀ t ∈ p, t ∈ V) ∧ (∀ t ∈ G p, t ∈ V) ∧ nonws (G p) = nonws p ∧
+        Editor.alignOpts cxA (Editor.root p (single o)).flat align width (single o).flat =
+          .ok (Editor.root (G p) (single o)).flat) ∧
+      nonws (clusters cxA e.text) = nonws (clusters cxA ed.flat.text) :=
+  alignOpts_para_no_loss hV hsp ed ht align width o hal hpp hG haf
+
+/-- **paragraph mode, Justify** -/
+theorem C07_justifyOpts_para {V : List (List Int)} (hV : VocabStable V = true) (hsp : [0x20] ∈ V)
+    (hspTail : ∀ t ∈ V, (0x20 : Int) ∉ t.tail)
+    (ed : Editor (List Int)) (ht : ∀ t ∈ ed.text, t ∈ V) (width : Int)
+    (o : Options (List Int)) (hpp : o.preservePara = true)
+    (hG : GoodPara V (o.withDefaults cxB).lineSep (o.withDefaults cxB).paraSep)
+    (haf : AffixFree (o.flat.withDefaults cxA)) :
+    ∃ (e : Editor Int) (G : List (List Int) → List (List Int)),
+      Editor.justifyOpts cxA ed.flat width o.flat = .ok e ∧ e.opts = ed.flat.opts ∧
+      ed.flat.text = joinWith (o.flat.withDefaults cxA).paraSep
+        ((paragraphsOf ed.text (o.withDefaults cxB)).map List.flatten) ∧
+      e.text = joinWith (o.flat.withDefaults cxA).paraSep
+        ((paragraphsOf ed.text (o.withDefaults cxB)).map (fun p => (G p).flatten)) ∧
+      (∀ p ∈ paragraphsOf ed.text (o.withDefaults cxB),
+        (∀ t ∈ p, t ∈ V) ∧ (∀ t ∈ G p, t ∈ V) ∧ nonws (G p) = nonws p ∧
+        Editor.justifyOpts cxA (Editor.root p (single o)).flat width (single o).flat =
+          .ok (Editor.root (G p) (single o)).flat) ∧
+      nonws (clusters cxA e.text) = nonws (clusters cxA ed.flat.text) :=
+  justifyOpts_para_no_loss hV hsp hspTail ed ht width o hpp hG haf
+
+/-- **paragraph mode, Wrap**: every paragraph separator is kept in place and every piece is the
+non-paragraph `WrapOpts` of its paragraph (`wrapTextB`), so `C07_wrapOpts_code_points*` hold
+paragraph by paragraph; the last clause is the whole-paragraph form for a whitespace separator -/
+theorem C07_wrapOpts_para {V : List (List Int)} (hV : VocabStable V = true) (hsp : [0x20] ∈ V)
+    (hspTail : ∀ t ∈ V, (0x20 : Int) ∉ t.tail)
+    (ed : Editor (List Int)) (ht : ∀ t ∈ ed.text, t ∈ V) (w : Int)
+    (o : Options (List Int)) (hpp : o.preservePara = true)
+    (hG : GoodPara V (o.withDefaults cxB).lineSep (o.withDefaults cxB).paraSep)
+    (haf : AffixFree (o.flat.withDefaults cxA)) :
+    ∃ e : Editor Int, Editor.wrapOpts cxA ed.flat w o.flat = .ok e ∧ e.opts = ed.flat.opts ∧
+      ed.flat.text = joinWith (o.flat.withDefaults cxA).paraSep
+        ((paragraphsOf ed.text (o.withDefaults cxB)).map List.flatten) ∧
+      e.text = joinWith (o.flat.withDefaults cxA).paraSep
+        ((paragraphsOf ed.text (o.withDefaults cxB)).map
+          (fun p => (wrapTextB (Editor.root p (single o)) w (single o)).flatten)) ∧
+      (∀ p ∈ paragraphsOf ed.text (o.withDefaults cxB),
+        (∀ t ∈ p, t ∈ V) ∧
+        Editor.wrapOpts cxA (Editor.root p (single o)).flat w (single o).flat =
+          .ok (Editor.root (wrapTextB (Editor.root p (single o)) w (single o)) (single o)).flat ∧
+        (∀ s, (o.withDefaults cxB).lineSep = [s] → cxB.isSpace s = true →
+          HyOK tkB (wid w) p →
+          dehyphen tkB (wid w) [wrapTextB (Editor.root p (single o)) w (single o)] =
+            words tkB p)) :=
+  wrapOpts_para_no_loss hV hsp hspTail ed ht w o hpp hG haf
+
+/-- **CollapseSpaceOpts is idempotent at the public level**, on code points over a stable
+vocabulary (`SepCollapseOK`: the separator is one cluster, or contains a whitespace cluster other
+than the space) -/
+theorem C07_collapseSpaceOpts_idempotent {V : List (List Int)} (hV : VocabStable V = true)
+    (hsp : [0x20] ∈ V)
+    (hspTail : ∀ t ∈ V, (0x20 : Int) ∉ t.tail)
+    (ed : Editor (List Int)) (ht : ∀ t ∈ ed.text, t ∈ V) (o : Options (List Int))
+    (hS : GoodSep V (o.withDefaults cxB).lineSep)
+    (hok : SepCollapseOK (o.withDefaults cxB).lineSep) :
+    (Editor.collapseSpaceOpts cxA ed.flat o.flat >>= fun e => Editor.collapseSpaceOpts cxA e o.flat) =
+      Editor.collapseSpaceOpts cxA ed.flat o.flat :=
+  collapseSpaceOpts_idem_code_points hV hsp hspTail ed ht o hS hok
+
+/-- … but NOT for arbitrary code points (FINDING): `"\t" ++ U+0301` → `" " ++ U+0301` → `" "` -/
+theorem C07_collapseSpaceOpts_not_idempotent_all :
+    (Editor.collapseSpaceOpts cxA (.root [0x09, 0x301] {}) {}).map Editor.text =
+      .ok [0x20, 0x301] ∧
+    (Editor.collapseSpaceOpts cxA (.root [0x09, 0x301] {}) {} >>=
+        fun e => Editor.collapseSpaceOpts cxA e {}).map Editor.text = .ok [0x20] :=
+  collapseSpaceOpts_not_idem_all
+
+/-- … and not for a separator that contains a space between other clusters (FINDING): separator
+`"a b"`, text `"a  b"` → `"a b"` → `" "` -/
+theorem C07_collapseSpaceOpts_idempotent_needs_sep :
+    VocabStable [[0x61], [0x20], [0x62]] = true ∧
+    (Editor.collapseSpaceOpts cxA (.root [0x61, 0x20, 0x20, 0x62] {})
+        { lineSep := [0x61, 0x20, 0x62] }).map Editor.text = .ok [0x61, 0x20, 0x62] ∧
+    (Editor.collapseSpaceOpts cxA (.root [0x61, 0x20, 0x20, 0x62] {})
+        { lineSep := [0x61, 0x20, 0x62] } >>=
+      fun e => Editor.collapseSpaceOpts cxA e { lineSep := [0x61, 0x20, 0x62] }).map Editor.text =
+        .ok [0x20] :=
+  collapseSpaceOpts_idem_needs_sep
+
+end C07_public
 
 end RosedVerif.Props
